@@ -31,6 +31,13 @@ def scn(params):
         s = sessions.run_session("%s-%d" % (prop, params["idx"]), cfg, seed)
         try:
             if not s.ok:
+                if s.why == "model-login-failed" and getattr(s, "srv", None) is not None:
+                    # the model client could not make sense of the server's answers: what the server emitted is still there to judge
+                    v, _st = _apply(prop, s.sim.k, s.server_domain, bool(cfg.get("wild")), cfg.get("ns_ip"), out)
+                    for (key, what, wit) in v[:3]:
+                        out["violations"].append((key, what, dict(wit, seed=seed, cfg=_jcfg(cfg), note="the model client's handshake did not complete")))
+                    if out["violations"]:
+                        return out
                 out["inconclusive"] = s.why
                 return out
             k = s.sim.k
